@@ -9,10 +9,15 @@
    P8 (C17_micro_atomic_generic): the micro-step reduction for ANY programs passing the boolean side condition that Corr/C17.v
    evaluates on the programs regenerated from the current source.  P9 (C17_abort_..., C17_raising_..., C17_rejected_nameless_refuted;
    Model/BackendAbort.v): calls that do NOT run to completion - interrupted between two attribute-level steps, or raising by
-   themselves after a write (the nameless-instance defect, known finding nameless_instance_rejected_after_write).
-   P10 (C17_default_name_tracks_shared): cls._default_backend. *)
+   themselves after a write (the nameless-instance defect as it was BEFORE /repo commit e7c4942, parameter nf = false; the
+   repaired order is nf = true, C17_raising_selection_repaired; the harness reads nf off the current source).
+   P10 (C17_default_name_tracks_shared): cls._default_backend.
+   P11 (C17_symbolic_blocks_sound, C17_source_blocks_set / _enter / _exit; Model/BackendSym.v): the check Corr/C17.v runs on the
+   programs regenerated from the current source decides block equivalence with the model's programs by symbolic
+   execution; a positive answer is PROVED to mean equality on every initial state for every backend instance. *)
 From Coq Require Import List Arith Bool.
 From TLV Require Import Model.Backend Model.BackendDispatch Model.BackendAbort Proofs.BackendProofs Proofs.BackendNI Proofs.BackendTwo Proofs.BackendMicro Proofs.BackendNorm Proofs.BackendDispatch Proofs.BackendAbort.
+From TLV Require Import Model.BackendSym Proofs.BackendSym.
 Import ListNotations.
 
 (* P1 view: after any history a thread's backend is its own most recent effective selection
@@ -947,10 +952,12 @@ Theorem C17_abort_not_atomic_refuted :
 Proof. exact abort_not_atomic. Qed.
 Print Assumptions C17_abort_not_atomic_refuted.
 
-(* the ONE place where the code itself raises after a write: `cls._default_backend = backend.backend_name` comes after
-   `cls._THREAD_LOCAL_DATA.backend = backend`; an instance of the bare backend class (Backend(), TenalgBackend(): passes
-   isinstance, has no backend_name) makes it raise AttributeError.  exec_nl nl = a call in a world where the instances
-   in nl are nameless.  GENUINE DEFECT (rejection clause): the selection is rejected and yet the caller's backend changed. *)
+(* BEFORE /repo commit e7c4942 (nf = false) there was ONE place where the code itself raised after a write:
+   `cls._default_backend = backend.backend_name` came after `cls._THREAD_LOCAL_DATA.backend = backend`; an instance of the
+   bare backend class (Backend(), TenalgBackend(): passes isinstance, has no backend_name) made it raise AttributeError.
+   exec_nl nl = a call in a world where the instances in nl are nameless.  The statement below is about THAT order (it
+   violated the rejection clause: the selection was rejected and yet the caller's backend had changed); e7c4942 reads the
+   name before the first write (nf = true), for which C17_raising_selection_repaired gives the rejection clause in full. *)
 Theorem C17_rejected_nameless_refuted :
   let o := Set_ 1 (SInst (Obj 20)) false in
   let r := exec_nl false nl20 fixed_rules cfg0 b00 o in
@@ -971,8 +978,9 @@ Theorem C17_raising_selection_partial : forall (R : rules) (c : cfg) (nf : bool)
 Proof. exact raising_partial. Qed.
 Print Assumptions C17_raising_selection_partial.
 
-(* the candidate repair build/fix_candidates/C17_nameless_instance.diff (nf = true: the name is read before the first
-   write): a set_backend / context entry that raises has changed nothing at all - the rejection clause in full *)
+(* the repaired order (/repo commit e7c4942; nf = true: the name is read before the first write; the harness reads nf off
+   the current source on every run): a set_backend / context entry that raises has changed nothing at all - the
+   rejection clause in full *)
 Theorem C17_raising_selection_repaired : forall (R : rules) (c : cfg) (nf : bool) (nl : inst -> bool) (b : bst) (o : op),
   nf = true -> (match o with Set_ _ _ _ | Enter _ _ _ => True | _ => False end) ->
   snd (exec_nl nf nl R c b o) = true -> seqv (to_st (fst (exec_nl nf nl R c b o))) (to_st b).
@@ -997,8 +1005,8 @@ Theorem C17_no_nameless_whole_operations : forall (nf : bool) (R : rules) (c : c
 Proof. exact exec_nl_none. Qed.
 Print Assumptions C17_no_nameless_whole_operations.
 
-(* the thread-local flavour accepts the nameless instance silently; a later NON-local context of that thread then fails in
-   its exit and leaves the context's backend as the shared default of everybody else *)
+(* before e7c4942 (nf = false) the thread-local flavour accepted the nameless instance silently; a later NON-local context of
+   that thread then failed in its exit and left the context's backend as the shared default of everybody else *)
 Example C17_nameless_local_accepted_then_exit_fails :
   (let r := exec_nl false nl20 fixed_rules cfg0 b00 (Set_ 1 (SInst (Obj 20)) true) in
    snd r = false /\ cur (to_st (fst r)) 1 = Obj 20) /\
@@ -1021,3 +1029,61 @@ Example C17_default_name_tracks_shared_nonvacuous :
   dname (run fixed_rules cfg0 (init (fun _ => None)) [Enter 1 (SInst (Obj 0)) false; Set_ 2 (SName 2) true; Exit_ 1 true; Set_ 2 (SName 1) false]) = 1.
 Proof. split; reflexivity. Qed.
 
+
+(* P11 the tie of the micro-step programs to the CURRENT source.  On every run the harness translates set_backend /
+   backend_context / current_backend (ast) into eight programs of acts (set, enter, exit, exit by exception x global /
+   thread-local flavour) and Corr/C17.v evaluates src_ok on their digits: prog_ok (the side condition of
+   C17_micro_atomic_generic), the number of effect points, and blk_eqb = equality of the SYMBOLIC end states (values as
+   functions of the initial shared default / slot / register / context stack and of the call's argument) of the
+   regenerated block and of the model's program.  The theorems below say what a positive answer means: equality of
+   shared default, thread-local slot, context stack and answers on EVERY initial state, for EVERY resolved backend
+   instance, under every rule set (exit: with keep_flag) - nothing is tested on a family of states. *)
+Theorem C17_symbolic_blocks_sound : forall (l1 l2 : list sact), blk_eqb l1 l2 = true ->
+  forall (c : cfg) (b sh : inst) (p : priv), blk_same c sh p (map (inst_act b) l1) (map (inst_act b) l2).
+Proof. exact blk_eqb_sound. Qed.
+Print Assumptions C17_symbolic_blocks_sound.
+
+Theorem C17_source_blocks_set : forall (digits : list nat), src_ok digits = true ->
+  forall l : bool, exists pr : sprog,
+    (exists ps, dec_sprogs 8 digits = Some ps /\ nth_error ps (if l then 4 else 0) = Some pr) /\
+    forall (R : rules) (c : cfg) (t : tid) (x : sel) (b sh : inst) (p : priv),
+      resolve R c x = Some b ->
+      prog_ok (inst_prog b pr) = true /\
+      blk_same c sh p (map fst (inst_prog b pr)) (map fst (compile R c p (Set_ t x l))).
+Proof. exact src_ok_set. Qed.
+Print Assumptions C17_source_blocks_set.
+
+Theorem C17_source_blocks_enter : forall (digits : list nat), src_ok digits = true ->
+  forall l : bool, exists pr : sprog,
+    (exists ps, dec_sprogs 8 digits = Some ps /\ nth_error ps (if l then 5 else 1) = Some pr) /\
+    forall (R : rules) (c : cfg) (t : tid) (x : sel) (b sh : inst) (p : priv),
+      resolve R c x = Some b ->
+      prog_ok (inst_prog b pr) = true /\
+      blk_same c sh p (map fst (inst_prog b pr)) (map fst (compile R c p (Enter t x l))).
+Proof. exact src_ok_enter. Qed.
+Print Assumptions C17_source_blocks_enter.
+
+Theorem C17_source_blocks_exit : forall (digits : list nat), src_ok digits = true ->
+  forall l e : bool, exists pr : sprog,
+    (exists ps, dec_sprogs 8 digits = Some ps /\
+                nth_error ps ((if l then 6 else 2) + (if e then 1 else 0)) = Some pr) /\
+    forall (R : rules) (c : cfg) (t : tid) (sh old : inst) (p : priv) (cx : list (inst * bool)),
+      keep_flag R = true -> p_ctx p = (old, l) :: cx -> isinst R old = true ->
+      prog_ok (inst_prog old pr) = true /\
+      blk_same c sh p (map fst (inst_prog old pr)) (map fst (compile R c p (Exit_ t e))).
+Proof. exact src_ok_exit. Qed.
+Print Assumptions C17_source_blocks_exit.
+
+(* non-vacuity: the digits of the repaired tree pass, and so does the harmless reordering (shared default written before
+   the thread-local slot); a read-back of the shared default, an exit that drops the flag, an except clause that
+   swallows the body's exception, an entry that saves nothing are refused *)
+Example C17_source_blocks_nonvacuous :
+  let reordered := [4; 3; 20; 1; 10] ++ [6; 16; 3; 20; 1; 6; 10] ++ [5; 8; 3; 21; 2; 10] ++ [5; 8; 3; 21; 2; 11]
+              ++ [2; 17; 10] ++ [4; 16; 17; 7; 10] ++ [3; 8; 18; 10] ++ [3; 8; 18; 11] in
+  let readback := [5; 3; 20; 25; 2; 10] ++ skipn 5 src_good in
+  let dropflag := firstn 32 src_good ++ [5; 8; 2; 3; 21; 10] ++ [5; 8; 2; 3; 21; 11] in
+  let swallow := firstn 18 src_good ++ [5; 8; 2; 3; 21; 10] ++ skipn 24 src_good in
+  let nosave := [4; 1; 3; 20; 10] ++ [5; 1; 3; 20; 6; 10] ++ skipn 12 src_good in
+  src_ok src_good = true /\ src_ok reordered = true /\ src_ok readback = false /\ src_ok dropflag = false /\
+  src_ok swallow = false /\ src_ok nosave = false.
+Proof. exact src_ok_examples. Qed.
